@@ -286,10 +286,22 @@ func (s *FeedScenario) Run(tmp string, r *rng.R) {
 					feeds[i].termed, feeds[i].expectEnded = true, true
 				}
 			case a == "dropY":
-				if yDropped || !open[0] {
+				if yDropped || deleted {
 					return
 				}
-				if err := handles[0].DropDataStore(collY); err != nil {
+				// usually through handle 0 (which created Y); sometimes through handle 1, which - unless H2OpensY -
+				// has never opened Y: the collection's feeds were all started through handle 0 then
+				dh := 0
+				if open[1] && (!open[0] || len(s.steps)%3 == 0) {
+					dh = 1
+				}
+				if !open[dh] {
+					return
+				}
+				if colls[dh][1] == nil {
+					s.Count("drops_through_a_handle_that_never_opened_the_collection", 1)
+				}
+				if err := handles[dh].DropDataStore(collY); err != nil {
 					s.Report("drop-failed", "DropDataStore failed: "+err.Error())
 					return
 				}
@@ -302,12 +314,28 @@ func (s *FeedScenario) Run(tmp string, r *rng.R) {
 			case a == "close0" || a == "close1":
 				h := int(a[5] - '0')
 				if !open[h] {
+					if !deleted {
+						// closing a handle again must not change anything for the other handle and its feeds
+						handles[h].Close(ctx)
+						s.Count("handles_closed_twice", 1)
+					}
 					return
 				}
 				mu.Lock()
 				open[h] = false
 				mu.Unlock()
 				handles[h].Close(ctx)
+				if open[1-h] {
+					// a multi-collection feed through the closed handle must be refused (its collections may still be
+					// cached by that handle), not half-started with a done channel nobody will close
+					pdone := make(chan struct{})
+					perr := handles[h].StartDCPFeed(ctx, sgbucket.FeedArguments{ID: "closedprobe", Backfill: sgbucket.FeedNoBackfill, DoneChan: pdone,
+						Scopes: map[string][]string{sgbucket.DefaultScope: {sgbucket.DefaultCollection}, collY.Scope: {collY.Collection}}}, func(sgbucket.FeedEvent) bool { return true }, nil)
+					s.Count("multi_collection_feeds_tried_through_a_closed_handle", 1)
+					if perr == nil && !yDropped {
+						s.Report("closed-handle-feed", fmt.Sprintf("Bucket.StartDCPFeed over two collections through handle %d, which had been closed, returned nil instead of the bucket-closed error   [script: %s]", h, strings.Join(s.steps, " ")))
+					}
+				}
 				if s.Disk && !open[0] && !open[1] {
 					for _, f := range feeds { // last handle of an on-disk bucket: the store shuts down
 						if !f.termed {
@@ -373,7 +401,7 @@ func actionKind(a string) string {
 func feedGoroutines() int {
 	buf := make([]byte, 1<<20)
 	buf = buf[:runtime.Stack(buf, true)]
-	return strings.Count(string(buf), "rosmar.(*dcpFeed).run(")
+	return strings.Count(string(buf), "rosmar.(*dcpFeed).run") // (prefix: the terminator watcher closure counts too)
 }
 
 // QueuedTerminator: a feed with many events still queued has its terminator closed while its callback is parked
